@@ -78,12 +78,28 @@ class Ctx:
         return self._solver
 
     def _feasible(self, cond):
+        """(feasible?, witness model or None)"""
         s = self.solver()
         s.push()
         s.add(cond)
         r = s.check()
+        m = s.model() if r == z3.sat else None
         s.pop()
-        return r != z3.unsat
+        return r != z3.unsat, m
+
+    def _model_says(self, cond):
+        m = getattr(self, '_model', None)
+        if m is None:
+            return None
+        try:
+            v = m.eval(cond, model_completion=True)
+        except z3.Z3Exception:
+            return None
+        if z3.is_true(v):
+            return True
+        if z3.is_false(v):
+            return False
+        return None
 
     def assume(self, cond, kind='assume'):
         c = to_bool(cond)
@@ -92,6 +108,8 @@ class Ctx:
             return
         self.pc.append(c)
         self.pc_kinds.append(kind)
+        if getattr(self, '_model', None) is not None and self._model_says(c) is not True:
+            self._model = None
         if self._solver is not None:
             self._solver.add(c)
 
@@ -108,9 +126,19 @@ class Ctx:
         if k < len(self.prefix):
             d = self.prefix[k]
         else:
+            mt = mf = None
             if self.prune:
-                t_ok = self._feasible(c)
-                f_ok = self._feasible(z3.Not(c))
+                # the last witness model satisfies the whole path condition: it decides one side for free
+                says = self._model_says(c)
+                if says is True:
+                    t_ok, mt = True, self._model
+                    f_ok, mf = self._feasible(z3.Not(c))
+                elif says is False:
+                    f_ok, mf = True, self._model
+                    t_ok, mt = self._feasible(c)
+                else:
+                    t_ok, mt = self._feasible(c)
+                    f_ok, mf = self._feasible(z3.Not(c))
             else:
                 t_ok = f_ok = True
             if t_ok:
@@ -121,8 +149,11 @@ class Ctx:
                 d = False
             else:
                 raise Infeasible()
+            self._next_model = mt if d else mf
         self.taken.append(d)
         self.assume(c if d else z3.Not(c), kind='branch')
+        if k >= len(self.prefix):
+            self._model = self._next_model
         return d
 
     # ---- obligations
